@@ -29,10 +29,16 @@ import (
 	interp "vcheck/sinterp"
 )
 
-const (
-	repoDir   = "/repo"
-	modelsPkg = "metacontroller/pkg/zzverif/models"
-)
+const modelsPkg = "metacontroller/pkg/zzverif/models"
+
+// repoDir is /repo; VERIF_REPO points the checker at a scratch copy (used for
+// mutation experiments so that /repo itself stays untouched).
+var repoDir = func() string {
+	if d := os.Getenv("VERIF_REPO"); d != "" {
+		return d
+	}
+	return "/repo"
+}()
 
 // verifDir is the directory holding harness/, evidence/, replays/ — the
 // current directory (checks are run with cwd=/verif or a snapshot of it).
